@@ -428,6 +428,22 @@ def c07_closed(m, o):
         checks += 1
         if np.abs(a_s - 100.0 * np.exp(-0.25 * np.asarray(ts_s))).max() > 50 * 1.4e-4 * 101:
             viol.append("odeint with max_step=0.01 over t=[0,8] timestep=4: max error %.4g" % np.abs(a_s - 100.0 * np.exp(-0.25 * np.asarray(ts_s))).max())
+    # a narrow smooth pulse after a long stretch in which nothing happens (all rates exactly zero): closed form
+    # S(T) = S0 exp(-a * integral of the Gaussian), on three output grids
+    from summer2.parameters import Function as Fn_, Time as Time_
+    from jax import numpy as jnp_
+    for (a_, c_, w_, T_) in o.get("pulses", [(0.5, 65.0, 1.0, 100.0), (0.8, 40.5, 0.7, 60.0)]):
+        exact_T = 1000.0 * math.exp(-a_ * w_ * math.sqrt(math.pi / 2) * (math.erf((T_ - c_) / (w_ * math.sqrt(2))) - math.erf((0.0 - c_) / (w_ * math.sqrt(2)))))
+        for h_ in (1.0, 0.5, 5.0):
+            mm = CompartmentalModel([0.0, T_], ["S", "R"], ["S"], timestep=h_)
+            mm.set_initial_population({"S": 1000.0})
+            mm.add_transition_flow("pulse", Fn_(lambda t, a=a_, c=c_, w=w_: a * jnp_.exp(-((t - c) ** 2) / (2 * w * w)), [Time_]), "S", "R")
+            mm.run(solver="solve_ivp", jit=False)
+            got = float(np.asarray(mm.outputs)[-1, 0])
+            checks += 1
+            if abs(got - exact_T) > 50 * 1.4e-4 * 1001:
+                viol.append("default solver, pulse of height %g centred at t=%g after a stretch with all rates zero, timestep %g: S(%g) = %.8g, exact %.8g"
+                            % (a_, c_, h_, T_, got, exact_T))
     # orders of convergence on a logistic (SI) model
     def si(h, solver):
         mm = CompartmentalModel([0, 4], ["S", "I"], ["I"], timestep=h)
@@ -576,6 +592,20 @@ def c16(m, o):
                 checks += 1
                 if not np.allclose(got, exp, equal_nan=True):
                     viol.append("rolling %s window=%d on %s: %s, pandas gives %s" % (name, window, series, got, exp))
+        # a window sees its own entries only: a missing value blanks the windows that contain it and no others (the usual
+        # chain difference -> rolling mean starts with NaN), and a large early value does not cost later windows their digits
+        if len(series) >= 4 and case % 2 == 0:
+            holed = series.copy()
+            holed[rng.randrange(0, len(series) - 2)] = np.nan
+            wide = np.concatenate([[1e12, -1e12 / 3], np.array([rng.randint(1, 99) / 297 for _ in range(6)])])
+            for ser in (holed, wide, np.asarray(sfd.get_rolling_diff(1)(jnp.array(series)), dtype=float)):
+                for window in (2, 3):
+                    for fn, name in ((jnp.mean, "mean"), (jnp.sum, "sum")):
+                        got = np.asarray(sfd.get_rolling_reduction(fn, window)(jnp.array(ser)), dtype=float)
+                        exp = np.array([np.nan] * (window - 1) + [getattr(np, name)(ser[i - window + 1: i + 1]) for i in range(window - 1, len(ser))])
+                        checks += 1
+                        if not np.allclose(got, exp, equal_nan=True, rtol=1e-9, atol=0):
+                            viol.append("rolling %s window=%d on %s: %s, each window on its own gives %s" % (name, window, ser, got, exp))
     return {"checks": checks, "violations": viol[:20]}
 
 
@@ -909,6 +939,28 @@ def c10(m, o):
     if np.isfinite(out).all():
         res = m._runner.function(parameters={**(m.get_default_parameters() or {}), **p})
         runner = m.get_runner(p, jit=False)
+        # every stage of every step reads the inputs at the time and state of that stage: the rows are the classical
+        # update formed from one_step rates at (t_i, y_i), (t_i + h/2, .), (t_i + h, .)
+        f_ = lambda t_, y_: np.asarray(runner.impl_dict["one_step"](p, float(t_), jnp.array(y_)).comp_rates, dtype=float)
+        h_ = float(m.timestep)
+        for i in range(len(out) - 1):
+            t_i, y_i = float(m.times[i]), out[i]
+            if o.get("solver", "euler") == "euler":
+                nxt = y_i + h_ * f_(t_i, y_i)
+            else:
+                k1 = f_(t_i, y_i)
+                k2 = f_(t_i + h_ / 2, y_i + h_ / 2 * k1)
+                k3 = f_(t_i + h_ / 2, y_i + h_ / 2 * k2)
+                k4 = f_(t_i + h_, y_i + h_ * k3)
+                nxt = y_i + h_ / 6 * (k1 + 2 * k2 + 2 * k3 + k4)
+            checks += 1
+            if not np.isfinite(nxt).all():
+                break
+            if np.abs(nxt - out[i + 1]).max() > 1e-8 * (1 + np.abs(nxt).max()):
+                j_ = int(np.abs(nxt - out[i + 1]).argmax())
+                viol.append("%s row %d (t=%r): compartment %d is %.12g, the step from row %d with the inputs read at the stage times "
+                            "gives %.12g" % (o.get("solver", "euler"), i + 1, float(m.times[i + 1]), j_, out[i + 1][j_], i, nxt[j_]))
+                break
         for i, (t, row) in enumerate(zip(m.times, out)):
             fr = np.asarray(runner.impl_dict["one_step"](p, float(t), jnp.array(row)).flow_rates, dtype=float)
             for rq in o.get("raw_flows", []):
@@ -1064,7 +1116,44 @@ def c18_traj(m, o):
         mn = float(out.min())
         if mn < -tol * (1 + float(np.abs(out).max())):
             viol.append("%s: a compartment falls to %r" % (solver, mn))
+        # the tolerance is per compartment (atol + rtol * that compartment's own size): a small compartment next to a
+        # large one may not undershoot by a fraction of the large one
+        checks += 1
+        lo = out.min(axis=0)
+        own = 20 * 1.4e-4 * (1 + np.abs(out).max(axis=0))      # default rtol = atol = 1.4e-4 (SolverArgs.DEFAULT)
+        bad = np.where(lo < -own)[0]
+        if len(bad) and not viol:
+            j = int(bad[0])
+            viol.append("%s: compartment %s falls to %r although it never exceeds %r (largest compartment %r)"
+                        % (solver, m.compartments[j], float(lo[j]), float(np.abs(out[:, j]).max()), float(np.abs(out).max())))
     return {"checks": checks, "violations": viol}
+
+
+def c18_disparity(m, o):
+    """a small compartment that drains quickly next to a very large one, error-controlled solver: it stays above
+    -(tolerance on its own scale)"""
+    from summer2 import CompartmentalModel
+    viol, checks = [], 0
+    for (n_, e0, sigma, gamma, beta) in o["cases"]:
+        mm = CompartmentalModel([0.0, 6.0], ["S", "E", "I", "R"], ["I"], timestep=1.0)
+        mm.set_initial_population({"S": float(n_), "E": float(e0)})
+        mm.add_transition_flow("prog", sigma, "E", "I")
+        mm.add_transition_flow("rec", gamma, "I", "R")
+        if beta:
+            mm.add_infection_frequency_flow("inf", beta, "S", "E")
+        mm.run(solver="solve_ivp", jit=False)
+        out = np.asarray(mm.outputs, dtype=float)
+        if not np.isfinite(out).all():
+            continue
+        checks += 1
+        lo = out.min(axis=0)
+        own = 20 * 1.4e-4 * (1 + np.abs(out).max(axis=0))      # default rtol = atol = 1.4e-4 (SolverArgs.DEFAULT)
+        bad = np.where(lo < -own)[0]
+        if len(bad):
+            j = int(bad[0])
+            viol.append("default solver, S=%g E=%g progression %g recovery %g contact %g: compartment %s falls to %r although it never exceeds %r"
+                        % (n_, e0, sigma, gamma, beta, mm.compartments[j], float(lo[j]), float(np.abs(out[:, j]).max())))
+    return {"checks": checks, "violations": viol[:6]}
 
 
 def c06(m, o):
@@ -1139,6 +1228,32 @@ def c06(m, o):
         checks += 1
         if row0.shape != exp.shape or np.abs(row0 - exp).max() > 1e-9 * scale:
             viol.append("%s: row 0 of the outputs %s differs from the initial population %s" % (solver, np.round(row0, 8)[:6], np.round(exp, 8)[:6]))
+    if o.get("params2") and not viol:
+        # the same object run again with other parameter values: row 0 is the initial population of THOSE values
+        # (the reference is a freshly built model's get_initial_population, itself compared with the definition above)
+        import impl
+        p2 = {k: float(Fraction(v)) for k, v in o["params2"].items()}
+        fresh, _, _ = impl.build(dict(prog, obs=[]))
+        try:
+            exp2 = np.asarray(fresh.get_initial_population(p2).values, dtype=float)
+            m.run(p, solver="euler", jit=False, rebuild=True)
+            m.run(p2, solver="euler", jit=False)
+            row0 = np.asarray(m.outputs, dtype=float)[0]
+            st = m._runner.impl_dict["one_step"](p2)
+        except BaseException as e:  # noqa
+            if type(e).__name__ == "ObservationTimeLimit":
+                raise
+            exp2 = None
+        if exp2 is not None and np.isfinite(exp2).all():
+            checks += 2
+            sc = 1 + np.abs(exp2).max()
+            if row0.shape != exp2.shape or np.abs(row0 - exp2).max() > 1e-9 * sc:
+                viol.append("second run of one object with other parameter values: row 0 %s, the initial population for those values is %s"
+                            % (np.round(row0, 8)[:6], np.round(exp2, 8)[:6]))
+            ip = np.asarray(st.initial_population, dtype=float)
+            if ip.shape != exp2.shape or np.abs(ip - exp2).max() > 1e-9 * sc:
+                viol.append("one_step of a runner built with other parameter values: initial population %s, for the values of the call %s"
+                            % (np.round(ip, 8)[:6], np.round(exp2, 8)[:6]))
     return {"checks": checks, "violations": viol[:8]}
 
 
@@ -1453,8 +1568,10 @@ def c11(m, o):
     viol, checks = [], 0
     calls = o["calls"]
 
+    ints = any(c.get("int_params") for c in calls)
+
     def fl(d):
-        return {k: float(Fraction(v)) for k, v in (d or {}).items()}
+        return {k: impl.pyparam(v, ints) for k, v in (d or {}).items()}
 
     def bits(mm):
         out = np.asarray(mm.outputs, dtype=float)
@@ -1615,7 +1732,8 @@ def c10_axis(m, o):
 
 ORACLES = {"c01": c01, "c02": c02, "c18": c18}
 MODEL_ORACLES = {"c02_traj": c02_traj, "c13": c13, "c12": c12, "c12_dates": c12_dates,
-                 "c07": c07, "c07_closed": c07_closed, "c16": c16, "c14": c14, "c08": c08, "c09": c09, "c10": c10, "c04": c04, "c18_traj": c18_traj, "c06": c06, "c05": c05, "c03": c03, "c15": c15, "c11": c11, "c10_axis": c10_axis, "c12_grid": c12_grid}
+                 "c07": c07, "c07_closed": c07_closed, "c16": c16, "c14": c14, "c08": c08, "c09": c09, "c10": c10, "c04": c04, "c18_traj": c18_traj, "c06": c06, "c05": c05, "c03": c03, "c15": c15, "c11": c11, "c10_axis": c10_axis, "c12_grid": c12_grid,
+                 "c18_disparity": c18_disparity}
 
 
 def run_oracle(m, o):
